@@ -760,7 +760,7 @@ impl<'a> Iterator for SliceLabelsIter<'a> {
                 }
                 Err(SplitLabelError::Pointer(pos)) => {
                     let pos = pos as usize;
-                    if pos > self.start {
+                    if pos >= self.start {
                         // Incidentally, this also covers the case where
                         // pos points past the end of the message.
                         self.start = usize::MAX;
